@@ -1,23 +1,30 @@
-(* C08, first clause ("... on every tree"): the executable acceptance test tree_okb of Props/C08t.v accepts EVERY tree.
-   Statements only; proofs in Proofs/C08tTreeA.v (peeling orders, no walk round a vertex), C08tTreeB.v (the bounded search
-   of tree_okb: saturation, soundness; side conditions), C08tTreeC.v (degree-sum characterisation, families).
+(* C08, first clause ("... on every tree"): the executable acceptance test tree_okb of Props/C08t.v accepts EVERY tree
+   (and exactly the forests).  Statements only; proofs in Proofs/C08tTreeA.v (peeling orders; no walk round a vertex),
+   C08tTreeB.v (the bounded search of tree_okb: saturation, soundness; side conditions), C08tTreeC.v (corollaries),
+   C08tTreeD.v (connected + degree sum), C08tTreeE.v (the same on positions; executable usual_treeb), C08tTreeG.v
+   (acyclic = no simple cycle; leaf existence; loop erasure), C08tTreeH.v (positions; converse tree_okb => acyclic),
+   C08tTreeI.v (all paths, all stars; non-vacuity).
 
-   DEFINITION OF "TREE" USED.  Positions 0 .. n-1 of `nodelist`, adjacency adjb G nodelist (an edge in either direction).
-   `tree_orderb G nodelist ord`: ord lists every position exactly once and every listed position has EXACTLY ONE
-   neighbour among the positions listed after it, except the last one listed (`forest_orderb`: AT MOST one).  Read from
-   the back, ord is a construction of G from a single vertex by repeatedly attaching a pendant vertex; C08tree_pendant_iff
-   states the equivalence with that inductive definition (`pendant`).  The usual definitions are related to it by
-   C08tree_order_of_connected_degsum / C08tree_connected_degsum_of_order (connected with degree sum 2 (n - 1), i.e.
-   |E| = |V| - 1) and by C08tree_no_bypass (no walk joins two neighbours of a vertex j inside G - j: no cycle).
+   DEFINITIONS OF "TREE".  Positions 0 .. n-1 of `nodelist`, adjacency adjb G nodelist (an edge in either direction).
+   (a) `tree_orderb G nodelist ord`: ord lists every position exactly once and every listed position has EXACTLY ONE
+       neighbour among the positions listed after it, except the last one listed (`forest_orderb`: AT MOST one).  Read
+       from the back, ord constructs G from a single vertex by repeatedly attaching a pendant vertex; C08tree_pendant_iff:
+       equivalence with that inductive definition (`pendant`).
+   (b) connected, and degree sum 2 (n - 1), i.e. |E| = |V| - 1 (pos_connected, pos_degsum; executable: usual_treeb).
+   (c) connected and acyclic: no simple cycle (pos_connected, pos_acyclic).
+   C08tree_usual_iff: (b) <=> (a).  C08tree_tree_iff_connected_acyclic(_pos): (c) <=> (a).  Forests: acyclic <=> (a').
 
-   RESULT.  C08tree_accepted: for every graph with a forest (a fortiori tree) order, tree_okb = true, given the two
-   decidable side conditions pb_wfb (index map as the callers build it) and noloopb; C08tree_side_conditions: they hold
-   for nodelist = list(G.nodes()), idx = position in that list, for every simple graph (wf_graphb).  Hence
-   C08tree_exact_on_M / C08tree_pure_ic_partial: the conclusions of C08t_tree_exact_on_M / C08t_tree_pure_ic_partial for
-   EVERY tree, with no acceptance hypothesis left.  (`_partial` only for the reason stated in Props/C08t.v: the lift from
-   the identity of right-hand sides on the invariant set M to the returned curves is cited.) *)
+   RESULT.  C08tree_accepted: a graph with a forest (a fortiori tree) order has tree_okb = true, given the two decidable
+   side conditions pb_wfb (index map as the callers build it) and noloopb; C08tree_side_conditions: they hold for
+   nodelist = list(G.nodes()), idx = position in that list, for every simple graph (wf_graphb of Base/Graph.v).
+   C08tree_tree_okb_iff: conversely an accepted graph is a forest.  Hence, with no acceptance hypothesis left,
+     C08tree_exact_on_M(_simple_graph), C08tree_usual_tree_exact_on_M, C08tree_connected_acyclic_exact_on_M:
+   for EVERY tree, every p >= 0 on M: pair-based right-hand side at the marginals of p = marginals of the master equation;
+   C08tree_pure_ic_partial: (1) + (2) + (3) of Props/C08t.v for every tree.  (`_partial` only for the reason stated in
+   Props/C08t.v: the lift from the identity of right-hand sides on the invariant set M to the returned curves is cited.)
+   Instances for every n: C08tree_every_path_accepted, C08tree_every_star_accepted; caterpillar etc. by evaluation. *)
 From EoNV Require Import Prelude Graph Vec VecP Rhs2D Rhs2DP Rhs2 Rhs2GenP Master C08tG C08tS C08tT C08tR C08tA C08tO C08tF C08tC
-  C08tTreeA C08tTreeB C08tTreeC C08tTreeD C08tTreeE.
+  C08tTreeA C08tTreeB C08tTreeC C08tTreeD C08tTreeE C08tTreeG C08tTreeH C08tTreeI.
 
 (* ---------------- the definition: boolean test = inductive pendant-vertex construction ---------------- *)
 Theorem C08tree_pendant_iff : forall (adj : nat -> nat -> bool) ord,
@@ -105,6 +112,66 @@ Theorem C08tree_usual_tree_exact_on_M : forall G tr rc, wf_graphb G = true -> us
       (marginals G nodelist (master_rhs G nodelist idx tr rc p)).
 Proof. exact usual_tree_exact. Qed.
 
+(* ---------------- against the usual definition: connected and acyclic ---------------- *)
+(* acyclic V: no simple cycle, i.e. no duplicate-free list of >= 3 vertices of V with consecutive ones, and the last and
+   the first, adjacent *)
+Theorem C08tree_tree_iff_connected_acyclic : forall (adj : nat -> nat -> bool), (forall a b, adj a b = adj b a) ->
+  forall V, NoDup V -> irrefl_on adj V ->
+  ((connected adj V /\ acyclic adj V) <-> exists ord, same_elts ord V /\ tree_peelb adj ord = true).
+Proof. exact tree_iff_connected_acyclic. Qed.
+Theorem C08tree_forest_iff_acyclic : forall (adj : nat -> nat -> bool), (forall a b, adj a b = adj b a) ->
+  forall V, NoDup V -> irrefl_on adj V ->
+  (acyclic adj V <-> exists ord, same_elts ord V /\ forest_peelb adj ord = true).
+Proof. exact forest_iff_acyclic. Qed.
+Theorem C08tree_tree_iff_connected_acyclic_pos : forall G nodelist, noloopb G nodelist = true ->
+  ((pos_connected G nodelist /\ pos_acyclic G nodelist) <-> exists ord, tree_orderb G nodelist ord = true).
+Proof. exact tree_iff_connected_acyclic_pos. Qed.
+(* the executable test accepts EXACTLY the forests: side conditions + acyclic *)
+Theorem C08tree_tree_okb_iff : forall G nodelist idx, tree_okb G nodelist idx = true <->
+  (pb_wfb G nodelist idx = true /\ noloopb G nodelist = true /\ exists ord, forest_orderb G nodelist ord = true).
+Proof. exact tree_okb_iff. Qed.
+Theorem C08tree_connected_acyclic_accepted : forall G, wf_graphb G = true ->
+  pos_connected G (gnodes G) -> pos_acyclic G (gnodes G) -> tree_okb G (gnodes G) (pos_in (gnodes G)) = true.
+Proof. exact connected_acyclic_accepted. Qed.
+(* THE CLAUSE for every tree in the usual sense: simple graph, connected, no cycle *)
+Theorem C08tree_connected_acyclic_exact_on_M : forall G tr rc, wf_graphb G = true ->
+  pos_connected G (gnodes G) -> pos_acyclic G (gnodes G) ->
+  let nodelist := gnodes G in let idx := pos_in (gnodes G) in
+  forall p t, nonneg nodelist p -> inMs nodelist (branch_cuts G nodelist) p ->
+  veq (g_dSIR_pair_based (marginals G nodelist p) t G nodelist idx tr rc)
+      (marginals G nodelist (master_rhs G nodelist idx tr rc p)).
+Proof. exact connected_acyclic_exact. Qed.
+
+(* ---------------- two infinite families, every n: paths 0 - 1 - .. - (n-1) and stars with n leaves ---------------- *)
+Theorem C08tree_every_path_is_tree : forall n, tree_orderb (path_graph n) (nodes_upto n) (seq 0 n) = true.
+Proof. exact path_order. Qed.
+Theorem C08tree_every_star_is_tree : forall n, tree_orderb (star_graph n) (nodes_upto (S n)) (seq 1 n ++ [0%nat]) = true.
+Proof. exact star_order. Qed.
+Theorem C08tree_every_path_accepted : forall n, tree_okb (path_graph n) (nodes_upto n) idx_of = true.
+Proof. exact path_tree_okb. Qed.
+Theorem C08tree_every_star_accepted : forall n, tree_okb (star_graph n) (nodes_upto (S n)) idx_of = true.
+Proof. exact star_tree_okb. Qed.
+Theorem C08tree_path_star_exact_on_M : forall n tr rc,
+  (forall p t, nonneg (nodes_upto n) p -> inMs (nodes_upto n) (branch_cuts (path_graph n) (nodes_upto n)) p ->
+     veq (g_dSIR_pair_based (marginals (path_graph n) (nodes_upto n) p) t (path_graph n) (nodes_upto n) idx_of tr rc)
+         (marginals (path_graph n) (nodes_upto n) (master_rhs (path_graph n) (nodes_upto n) idx_of tr rc p))) /\
+  (forall p t, nonneg (nodes_upto (S n)) p -> inMs (nodes_upto (S n)) (branch_cuts (star_graph n) (nodes_upto (S n))) p ->
+     veq (g_dSIR_pair_based (marginals (star_graph n) (nodes_upto (S n)) p) t (star_graph n) (nodes_upto (S n)) idx_of tr rc)
+         (marginals (star_graph n) (nodes_upto (S n)) (master_rhs (star_graph n) (nodes_upto (S n)) idx_of tr rc p))).
+Proof. exact path_star_exact. Qed.
+(* the family definitions are simple graphs, and evaluation agrees *)
+Example C08tree_nonvacuous_families :
+  wf_graphb (path_graph 5) = true /\ wf_graphb (star_graph 4) = true /\
+  tree_okb (path_graph 5) (nodes_upto 5) idx_of = true /\ tree_okb (star_graph 4) (nodes_upto 5) idx_of = true /\
+  usual_treeb (path_graph 7) (nodes_upto 7) = true /\ usual_treeb (star_graph 6) (nodes_upto 7) = true.
+Proof. vm_compute. repeat split; reflexivity. Qed.
+(* "connected and acyclic" is satisfiable (a tree with 5 nodes), and a 4-cycle is a simple graph that is not acyclic *)
+Example C08tree_nonvacuous_connected_acyclic :
+  wf_graphb ex_tree5' = true /\ pos_connected ex_tree5' (gnodes ex_tree5') /\ pos_acyclic ex_tree5' (gnodes ex_tree5').
+Proof. exact ex_conn_acyclic. Qed.
+Example C08tree_cycle_not_acyclic : wf_graphb ex_cyc4' = true /\ ~ pos_acyclic ex_cyc4' (gnodes ex_cyc4').
+Proof. exact ex_cycle_not_acyclic. Qed.
+
 (* ---------------- instances: paths, stars, caterpillars, a relabelled tree; a cycle has no order ---------------- *)
 Definition ex_path6 : graph := graph_of [(0, [1]); (1, [0; 2]); (2, [1; 3]); (3, [2; 4]); (4, [3; 5]); (5, [4])]%N.
 Definition ex_star5 : graph := graph_of [(0, [1; 2; 3; 4; 5]); (1, [0]); (2, [0]); (3, [0]); (4, [0]); (5, [0])]%N.
@@ -163,3 +230,17 @@ Print Assumptions C08tree_usual_treeb_order.
 Print Assumptions C08tree_usual_tree_accepted.
 Print Assumptions C08tree_usual_tree_exact_on_M.
 Print Assumptions C08tree_nonvacuous_usual.
+Print Assumptions C08tree_tree_iff_connected_acyclic.
+Print Assumptions C08tree_forest_iff_acyclic.
+Print Assumptions C08tree_tree_iff_connected_acyclic_pos.
+Print Assumptions C08tree_tree_okb_iff.
+Print Assumptions C08tree_connected_acyclic_accepted.
+Print Assumptions C08tree_connected_acyclic_exact_on_M.
+Print Assumptions C08tree_every_path_is_tree.
+Print Assumptions C08tree_every_star_is_tree.
+Print Assumptions C08tree_every_path_accepted.
+Print Assumptions C08tree_every_star_accepted.
+Print Assumptions C08tree_path_star_exact_on_M.
+Print Assumptions C08tree_nonvacuous_families.
+Print Assumptions C08tree_nonvacuous_connected_acyclic.
+Print Assumptions C08tree_cycle_not_acyclic.
